@@ -93,6 +93,26 @@ func genC18(seed int64, tier string) *Scenario {
 		if r.Intn(6) == 0 {
 			fn = "dofile"
 			lit = mod + ".lua"
+			if i := strings.LastIndex(mod, "/"); i > 0 && r.Intn(3) == 0 {
+				// no suffix, and the string names a directory (the directory part of a module path) while
+				// no Lua file or package anywhere goes by that name: nothing the string could mean
+				dir := mod[:i]
+				base := dir[strings.LastIndex(dir, "/")+1:]
+				clash := false
+				for p := range exists {
+					if strings.HasSuffix(p, "/"+base+".lua") || p == base+".lua" || strings.HasSuffix(p, "/"+base+"/init.lua") || p == base+"/init.lua" || strings.HasSuffix(p, "/"+base+".so") || p == base+".so" {
+						clash = true
+					}
+				}
+				for _, nm := range names {
+					if nm == base {
+						clash = true // a later event may create a module of that name
+					}
+				}
+				if !clash {
+					lit = dir
+				}
+			}
 		}
 		line := fmt.Sprintf("local v%d = %s(\"%s\")\n", i, fn, lit)
 		col := strings.Index(line, "\"") + 1 + r.Intn(len(lit))
